@@ -172,14 +172,17 @@ fn create_diagnostic(err: &SplError, text: &str) -> Diagnostic {
 pub fn as_position(index: usize, text: &str) -> Position {
     let mut line = 0;
     let mut character = 0;
-    for (i, c) in text.char_indices() {
+    let mut chars = text.char_indices().peekable();
+    while let Some((i, c)) = chars.next() {
         if i == index {
             break;
         }
-        if c == '\n' {
+        // line terminators are `\n`, `\r\n` and a lone `\r`
+        let crlf = c == '\r' && matches!(chars.peek(), Some((_, '\n')));
+        if c == '\n' || (c == '\r' && !crlf) {
             line += 1;
             character = 0;
-        } else {
+        } else if !crlf {
             character += c.len_utf16() as u32;
         }
     }
@@ -210,15 +213,18 @@ pub fn get_insertion_index(position: &Position, text: &str) -> usize {
     let mut line = 0;
     let mut character = 0;
     let pos = (position.line, position.character);
-    for (i, c) in text.char_indices() {
-        if line == pos.0 && (character >= pos.1 || c == '\n') {
+    let mut chars = text.char_indices().peekable();
+    while let Some((i, c)) = chars.next() {
+        if line == pos.0 && (character >= pos.1 || c == '\n' || c == '\r') {
             // a column past the end of the line means the end of that line
             return i;
         }
-        if c == '\n' {
+        // line terminators are `\n`, `\r\n` and a lone `\r`
+        let crlf = c == '\r' && matches!(chars.peek(), Some((_, '\n')));
+        if c == '\n' || (c == '\r' && !crlf) {
             line += 1;
             character = 0;
-        } else {
+        } else if !crlf {
             character += c.len_utf16() as u32;
         }
     }
